@@ -1,1 +1,528 @@
-//! placeholder
+//! C12 / C13 / C14 / C05 (FlexVec part) -- one step from ANY valid state.
+//!
+//! C12 "FlexVec behaves as a sequence of independently sized items under every history": After any sequence of
+//!     push, push_default, pop, truncate, clear and in-place edits of individual items, a FlexVec reports the length
+//!     and yields the items (in order, with their contents) of the corresponding abstract sequence; pop removes
+//!     exactly the last item, truncate(n) keeps exactly the first min(n, len) items, editing one item never changes
+//!     another, and the bytes validate and re-map to the same sequence after every step.
+//! C13 "A rejected container operation leaves the container exactly as it was" (FlexVec push refused: no room,
+//!     length type exhausted, item emplacer fails): length, items, size(), validity as before the call.
+//! C14 "In-place mutation stays inside the value": only bytes inside the slice, and inside it only bytes belonging
+//!     to the part being changed; neighbouring items and memory after the buffer keep their contents.
+//! C05 size() equals the reference extent (end of used data rounded up to ALIGN), never exceeds the mapped bytes,
+//!     and mapping only the first size() bytes succeeds and gives the same content and size().
+//!
+//! PROOF SHAPE.  Every harness starts from an exact-size heap slice of symbolic length <= N (BOUNDED, stated per
+//! harness) with fully symbolic contents that the library accepts (`from_mut_bytes` is Ok) -- an over-approximation
+//! of every state reachable by any history -- performs ONE real operation and compares with the abstract sequence.
+//! The abstract sequence is obtained by `walk`, an independent chain walk written from the format description
+//! ([slot of max(size L, align T) bytes][payload]; slot = distance to the next slot; 0 = end; L::MAX = last item
+//! owns the rest).  The work is split in two inductive halves:
+//!   *view*  harnesses: for every accepted byte string, len / is_empty / iter / size() == reference view of the bytes
+//!           (and the reference accepts it);
+//!   *step*  harnesses: for every accepted byte string, after the operation the bytes are accepted again and the
+//!           reference view of the new bytes == model operation applied to the reference view of the old bytes
+//!           (+ frame conditions of C14, + unchanged view on Err for C13).
+//! Together: library view after any history == abstract sequence after that history.
+//! Step harnesses additionally assume the reference walk accepts the pre-state (`wf`); every reachable state
+//! satisfies it (that is what the step harnesses re-establish), and the view harnesses check accepted ==> wf.
+use crate::reference::{ceil_to, floor_to};
+use crate::util::*;
+use flatty::error::ErrorKind;
+use flatty::portable::le;
+use flatty::prelude::*;
+use flatty::vec::Length;
+use flatty::{FlatVec, FlexVec};
+
+// ------------------------------------------------------------------------------------------------ reference side
+
+#[derive(Clone, Copy)]
+enum En {
+    Ne,
+    Le,
+}
+
+#[derive(Clone, Copy)]
+enum Item {
+    /// sized item: (size, align); every bit pattern valid
+    Sized(usize, usize),
+    /// FlatVec<u8,u8>: [n][n bytes ...]; valid iff n <= available - 1; used = 1 + n
+    VecU8U8,
+}
+
+#[derive(Clone, Copy)]
+struct Fmt {
+    l_size: usize,
+    l_align: usize,
+    l_en: En,
+    item: Item,
+}
+
+impl Fmt {
+    const fn item_align(&self) -> usize {
+        match self.item {
+            Item::Sized(_, a) => a,
+            Item::VecU8U8 => 1,
+        }
+    }
+    /// smallest payload
+    const fn item_min(&self) -> usize {
+        match self.item {
+            Item::Sized(s, _) => s,
+            Item::VecU8U8 => 1,
+        }
+    }
+    const fn slot(&self) -> usize {
+        if self.l_size > self.item_align() { self.l_size } else { self.item_align() }
+    }
+    const fn align(&self) -> usize {
+        if self.l_align > self.item_align() { self.l_align } else { self.item_align() }
+    }
+    const fn l_max(&self) -> usize {
+        match self.l_size {
+            1 => 0xff,
+            2 => 0xffff,
+            _ => 0xffff_ffff,
+        }
+    }
+}
+
+const F_U8_U8: Fmt = Fmt { l_size: 1, l_align: 1, l_en: En::Ne, item: Item::Sized(1, 1) };
+const F_U16_U8: Fmt = Fmt { l_size: 1, l_align: 1, l_en: En::Ne, item: Item::Sized(2, 2) };
+const F_U32_U16: Fmt = Fmt { l_size: 2, l_align: 2, l_en: En::Ne, item: Item::Sized(4, 4) };
+const F_U8_LE16: Fmt = Fmt { l_size: 2, l_align: 1, l_en: En::Le, item: Item::Sized(1, 1) };
+const F_VEC_U8: Fmt = Fmt { l_size: 1, l_align: 1, l_en: En::Ne, item: Item::VecU8U8 };
+
+fn rd_l(b: &[u8], at: usize, f: &Fmt) -> usize {
+    match (f.l_size, f.l_en) {
+        (1, _) => b[at] as usize,
+        (2, En::Ne) => u16::from_ne_bytes([b[at], b[at + 1]]) as usize,
+        (2, En::Le) => u16::from_le_bytes([b[at], b[at + 1]]) as usize,
+        (_, En::Ne) => u32::from_ne_bytes([b[at], b[at + 1], b[at + 2], b[at + 3]]) as usize,
+        (_, En::Le) => u32::from_le_bytes([b[at], b[at + 1], b[at + 2], b[at + 3]]) as usize,
+    }
+}
+
+/// bytes used by a valid item whose payload starts at `p` and may use `avail` bytes; None = not a valid item
+fn item_used(b: &[u8], p: usize, avail: usize, f: &Fmt) -> Option<usize> {
+    match f.item {
+        Item::Sized(s, a) => {
+            if avail >= s && p % a == 0 { Some(s) } else { None }
+        }
+        Item::VecU8U8 => {
+            if avail >= 1 && (b[p] as usize) <= avail - 1 { Some(1 + b[p] as usize) } else { None }
+        }
+    }
+}
+
+/// reference view of a byte image: at most M items
+#[derive(Clone, Copy)]
+struct Chain<const M: usize> {
+    /// well-formed: chain terminated inside the mapped bytes, every item valid, every offset a multiple of ALIGN
+    ok: bool,
+    cnt: usize,
+    /// slot position of item k (payload at slot + SLOT)
+    slot: [usize; M],
+    /// payload bytes the item may use (its capacity): up to the next slot / the end of the mapped bytes
+    avail: [usize; M],
+    /// payload bytes in use
+    used: [usize; M],
+    /// last item carries L::MAX
+    open: bool,
+    /// reference extent: end of used data (terminator slot included) rounded up to ALIGN
+    end: usize,
+}
+
+fn walk<const M: usize>(b: &[u8], len: usize, f: &Fmt) -> Chain<M> {
+    let slot = f.slot();
+    let a = f.align();
+    let usable = floor_to(len, a);
+    let mut c = Chain::<M> { ok: false, cnt: 0, slot: [0; M], avail: [0; M], used: [0; M], open: false, end: 0 };
+    let mut pos = 0usize;
+    let mut done = false;
+    let mut k = 0;
+    while k < M + 1 {
+        if !done {
+            if pos + f.l_size > usable {
+                done = true; // chain runs off the mapped bytes
+            } else {
+                let o = rd_l(b, pos, f);
+                if o == 0 {
+                    c.ok = pos + slot <= usable;
+                    c.end = pos + slot;
+                    done = true;
+                } else if o == f.l_max() {
+                    if k < M && pos + slot <= usable {
+                        if let Some(u) = item_used(b, pos + slot, usable - (pos + slot), f) {
+                            c.slot[k] = pos;
+                            c.avail[k] = usable - (pos + slot);
+                            c.used[k] = u;
+                            c.cnt = k + 1;
+                            c.open = true;
+                            c.end = pos + slot + ceil_to(u, a);
+                            c.ok = c.end <= usable;
+                        }
+                    }
+                    done = true;
+                } else {
+                    let mut good = false;
+                    if k < M && o >= slot && o % a == 0 && pos + o <= usable {
+                        if let Some(u) = item_used(b, pos + slot, o - slot, f) {
+                            c.slot[k] = pos;
+                            c.avail[k] = o - slot;
+                            c.used[k] = u;
+                            c.cnt = k + 1;
+                            pos += o;
+                            good = true;
+                        }
+                    }
+                    if !good { done = true; }
+                }
+            }
+        }
+        k += 1;
+    }
+    c
+}
+
+fn snap<const N: usize>(b: &[u8]) -> [u8; N] {
+    let mut s = [0u8; N];
+    let mut i = 0;
+    while i < N {
+        if i < b.len() { s[i] = b[i]; }
+        i += 1;
+    }
+    s
+}
+
+/// bytes [from, to) equal in both images
+fn same_bytes<const N: usize>(x: &[u8], y: &[u8], from: usize, to: usize) -> bool {
+    let mut same = true;
+    let mut i = 0;
+    while i < N {
+        if i >= from && i < to && x[i] != y[i] { same = false; }
+        i += 1;
+    }
+    same
+}
+
+/// item k of (x, cx) has the same contents (used payload bytes) as item k of (y, cy)
+fn same_item<const N: usize, const M: usize>(x: &[u8], cx: &Chain<M>, y: &[u8], cy: &Chain<M>, k: usize, f: &Fmt) -> bool {
+    let px = cx.slot[k] + f.slot();
+    let py = cy.slot[k] + f.slot();
+    let mut same = cx.used[k] == cy.used[k];
+    let mut i = 0;
+    while i < N {
+        if i < cx.used[k] && same && x[px + i] != y[py + i] { same = false; }
+        i += 1;
+    }
+    same
+}
+
+/// the first `n` items of the two views are the same sequence
+fn same_prefix<const N: usize, const M: usize>(x: &[u8], cx: &Chain<M>, y: &[u8], cy: &Chain<M>, n: usize, f: &Fmt) -> bool {
+    let mut same = true;
+    let mut k = 0;
+    while k < M {
+        if k < n && same && !same_item::<N, M>(x, cx, y, cy, k, f) { same = false; }
+        k += 1;
+    }
+    same
+}
+
+/// sized item value as integer
+trait Val: Flat + Sized + Copy + kani::Arbitrary + Default {
+    fn v(&self) -> u64;
+}
+impl Val for u8 {
+    fn v(&self) -> u64 { *self as u64 }
+}
+impl Val for u16 {
+    fn v(&self) -> u64 { *self as u64 }
+}
+impl Val for u32 {
+    fn v(&self) -> u64 { *self as u64 }
+}
+
+/// native-endian item value at payload position p
+fn rd_item(b: &[u8], p: usize, f: &Fmt) -> u64 {
+    match f.item {
+        Item::Sized(1, _) => b[p] as u64,
+        Item::Sized(2, _) => u16::from_ne_bytes([b[p], b[p + 1]]) as u64,
+        _ => u32::from_ne_bytes([b[p], b[p + 1], b[p + 2], b[p + 3]]) as u64,
+    }
+}
+
+// ------------------------------------------------------------------------------------------- common step postlude
+
+/// what the operation is allowed to have done, relative to the pre-state
+/// `keep` items survive unchanged as items 0..keep of the new sequence whose length must be `cnt2`.
+/// C14 frame: every byte before the slot of item keep-1 is unchanged, the used payload of item keep-1 is unchanged,
+/// and the bytes between the mapped part and the end of the slice are unchanged.
+fn step_post<T: Flat + ?Sized, L: Flat + Length, const N: usize, const M: usize>(
+    b: &[u8],
+    len: usize,
+    pre: &[u8; N],
+    c: &Chain<M>,
+    keep: usize,
+    cnt2: usize,
+    f: &Fmt,
+) -> Chain<M> {
+    // the bytes validate ...
+    assert!(FlexVec::<T, L>::validate(b).is_ok(), "C12/C13: bytes do not validate after the step");
+    // ... and re-map to the model sequence
+    let c2 = walk::<M>(b, len, f);
+    assert!(c2.ok, "C12/C13: chain malformed after the step");
+    assert!(c2.cnt == cnt2, "C12/C13: wrong number of items after the step");
+    assert!(same_prefix::<N, M>(pre, c, b, &c2, keep, f), "C12/C13: a surviving item changed its contents");
+    // C14
+    if keep > 0 {
+        assert!(same_bytes::<N>(pre, b, 0, c.slot[keep - 1]), "C14: bytes of earlier items modified");
+        let p = c.slot[keep - 1] + f.slot();
+        assert!(same_bytes::<N>(pre, b, p, p + c.used[keep - 1]), "C14: payload of the neighbouring item modified");
+    }
+    assert!(same_bytes::<N>(pre, b, floor_to(len, f.align()), len), "C14: bytes after the mapped part modified");
+    c2
+}
+
+// ------------------------------------------------------------------------------------------------ sized items
+
+/// view: len / is_empty / iter == reference view; accepted ==> wf
+fn chk_view<T: Val, L: Flat + Length, const N: usize, const M: usize>(f: Fmt) {
+    let (len, off) = any_len_off(N, f.align());
+    kani::assume(off == 0);
+    let b = sym_slice(len, f.align(), off, N);
+    let pre: [u8; N] = snap::<N>(b);
+    let v = match FlexVec::<T, L>::from_mut_bytes(b) {
+        Ok(v) => v,
+        Err(_) => return,
+    };
+    let c = walk::<M>(&pre, len, &f);
+    assert!(c.ok, "C12: library accepts a byte string the reference chain walk rejects");
+    assert!(v.len() == c.cnt, "C12: len() differs from the reference item count");
+    assert!(v.is_empty() == (c.cnt == 0), "C12: is_empty() differs");
+    let mut it = v.iter();
+    let mut k = 0;
+    while k < M + 1 {
+        let x = it.next();
+        if k < c.cnt {
+            assert!(x.is_some(), "C12: iter() ends early");
+            assert!(x.unwrap().v() == rd_item(&pre, c.slot[k] + f.slot(), &f), "C12: iter() yields a different item");
+        } else {
+            assert!(x.is_none(), "C12: iter() yields extra items");
+        }
+        k += 1;
+    }
+    kani::cover!(c.cnt == M);
+    kani::cover!(c.cnt > 0 && c.open);
+    kani::cover!(c.cnt > 0 && !c.open);
+}
+
+/// C05: size() == reference extent <= mapped bytes; the size() prefix maps to the same content and size()
+fn chk_size<T: Val, L: Flat + Length, const N: usize, const M: usize>(f: Fmt) {
+    let (len, off) = any_len_off(N, f.align());
+    kani::assume(off == 0);
+    let b = sym_slice(len, f.align(), off, N);
+    let pre: [u8; N] = snap::<N>(b);
+    let v = match FlexVec::<T, L>::from_bytes(b) {
+        Ok(v) => v,
+        Err(_) => return,
+    };
+    let c = walk::<M>(&pre, len, &f);
+    let s = v.size();
+    assert!(s <= len, "C05: size() exceeds the mapped bytes");
+    assert!(c.ok, "C12: library accepts a byte string the reference chain walk rejects");
+    assert!(s == c.end, "C05: size() differs from the reference extent");
+    assert!(s % f.align() == 0);
+    let p = FlexVec::<T, L>::from_bytes(&b[..s]);
+    assert!(p.is_ok(), "C05: the size() prefix does not map");
+    let p = p.unwrap();
+    assert!(p.size() == s, "C05: the size() prefix reports a different size()");
+    let c2 = walk::<M>(&pre, s, &f);
+    assert!(c2.ok && c2.cnt == c.cnt && same_prefix::<N, M>(&pre, &c, &pre, &c2, c.cnt, &f), "C05: prefix content differs");
+    assert!(p.len() == c.cnt, "C05: the size() prefix has a different length");
+}
+
+fn start<'a, T: Flat + ?Sized, L: Flat + Length, const N: usize, const M: usize>(
+    f: &Fmt,
+) -> Option<(&'a mut [u8], usize, [u8; N], Chain<M>)> {
+    let (len, off) = any_len_off(N, f.align());
+    kani::assume(off == 0);
+    let b = sym_slice(len, f.align(), off, N);
+    let pre: [u8; N] = snap::<N>(b);
+    if FlexVec::<T, L>::validate(b).is_err() {
+        return None;
+    }
+    let c = walk::<M>(&pre, len, f);
+    // reachable states satisfy the reference wf (re-established by every step harness); accepted ==> wf is checked
+    // by the view harnesses
+    kani::assume(c.ok);
+    Some((b, len, pre, c))
+}
+
+fn chk_pop<T: Flat + ?Sized, L: Flat + Length, const N: usize, const M: usize>(f: Fmt) {
+    let (b, len, pre, c) = match start::<T, L, N, M>(&f) {
+        Some(x) => x,
+        None => return,
+    };
+    let v = unsafe { FlexVec::<T, L>::from_mut_bytes_unchecked(b) };
+    let r = v.pop();
+    assert!(r.is_ok() == (c.cnt > 0), "C12: pop result");
+    let cnt2 = if c.cnt > 0 { c.cnt - 1 } else { 0 };
+    step_post::<T, L, N, M>(b, len, &pre, &c, cnt2, cnt2, &f);
+    kani::cover!(c.cnt == 0);
+    kani::cover!(c.cnt == 1);
+    kani::cover!(c.cnt >= 2 && c.open);
+    kani::cover!(c.cnt >= 2 && !c.open);
+}
+
+fn chk_truncate<T: Flat + ?Sized, L: Flat + Length, const N: usize, const M: usize>(f: Fmt) {
+    let (b, len, pre, c) = match start::<T, L, N, M>(&f) {
+        Some(x) => x,
+        None => return,
+    };
+    let n: usize = kani::any();
+    let v = unsafe { FlexVec::<T, L>::from_mut_bytes_unchecked(b) };
+    v.truncate(n); // must not panic for any n
+    let cnt2 = if n < c.cnt { n } else { c.cnt };
+    step_post::<T, L, N, M>(b, len, &pre, &c, cnt2, cnt2, &f);
+    kani::cover!(n == 0 && c.cnt > 0);
+    kani::cover!(n > 0 && n < c.cnt);
+    kani::cover!(n == c.cnt && n > 0);
+    kani::cover!(n > c.cnt);
+}
+
+fn chk_clear<T: Flat + ?Sized, L: Flat + Length, const N: usize, const M: usize>(f: Fmt) {
+    let (b, len, pre, c) = match start::<T, L, N, M>(&f) {
+        Some(x) => x,
+        None => return,
+    };
+    let v = unsafe { FlexVec::<T, L>::from_mut_bytes_unchecked(b) };
+    v.clear();
+    step_post::<T, L, N, M>(b, len, &pre, &c, 0, 0, &f);
+    assert!(FlexVec::<T, L>::from_bytes(b).unwrap().is_empty());
+    kani::cover!(c.cnt > 1);
+}
+
+/// position where a pushed item's slot goes and whether slot + smallest payload `need` fit
+fn push_room<const M: usize>(c: &Chain<M>, len: usize, need: usize, f: &Fmt) -> (usize, bool) {
+    let usable = floor_to(len, f.align());
+    let at = if c.open { c.end } else { c.end - f.slot() };
+    (at, at + f.slot() + need <= usable)
+}
+
+/// push of a sized value (`dflt`: push_default).  C12 on Ok, C13 on Err, C14 both.
+fn chk_push<T: Val, L: Flat + Length, const N: usize, const M: usize>(f: Fmt, dflt: bool) {
+    let (b, len, pre, c) = match start::<T, L, N, M>(&f) {
+        Some(x) => x,
+        None => return,
+    };
+    let x: T = if dflt { T::default() } else { kani::any() };
+    let (at, fits) = push_room::<M>(&c, len, f.item_min(), &f);
+    let v = unsafe { FlexVec::<T, L>::from_mut_bytes_unchecked(b) };
+    let r = if dflt { v.push_default() } else { v.push(x) };
+    let ok = match r {
+        Ok(p) => {
+            assert!(p.v() == x.v(), "C12: push returns a different item");
+            true
+        }
+        Err(e) => {
+            assert!(e.kind == ErrorKind::InsufficientSize);
+            false
+        }
+    };
+    if ok {
+        assert!(fits, "C12: push accepted without room");
+        assert!(c.cnt < M);
+        let c2 = step_post::<T, L, N, M>(b, len, &pre, &c, c.cnt, c.cnt + 1, &f);
+        assert!(c2.slot[c.cnt] == at, "C12: new item not placed right behind the used data");
+        assert!(rd_item(b, at + f.slot(), &f) == x.v(), "C12: pushed item has different contents");
+    } else {
+        // C13: refused ==> observable state unchanged
+        let c2 = step_post::<T, L, N, M>(b, len, &pre, &c, c.cnt, c.cnt, &f);
+        assert!(c2.end == c.end, "C13: size() changed by a refused push");
+        assert!(!fits, "C12: push refused although slot and payload fit");
+    }
+    let usable = floor_to(len, f.align());
+    kani::cover!(ok && c.cnt == 0);
+    kani::cover!(ok && c.cnt > 0 && c.open);
+    kani::cover!(ok && c.cnt > 0 && !c.open);
+    kani::cover!(!ok && c.open && c.end == usable); // buffer exactly full
+    kani::cover!(!ok && !c.open); // terminator slot present, payload does not fit
+    kani::cover!(!ok && c.open && c.end + f.slot() <= usable); // slot fits but payload does not
+}
+
+/// in-place edit of item j through iter_mut(): only that item's payload changes
+fn chk_edit<T: Val, L: Flat + Length, const N: usize, const M: usize>(f: Fmt) {
+    let (b, len, pre, c) = match start::<T, L, N, M>(&f) {
+        Some(x) => x,
+        None => return,
+    };
+    let j: usize = kani::any();
+    kani::assume(j < c.cnt);
+    let x: T = kani::any();
+    let v = unsafe { FlexVec::<T, L>::from_mut_bytes_unchecked(b) };
+    {
+        let mut it = v.iter_mut();
+        let mut k = 0;
+        while k < M {
+            if k <= j {
+                let r = it.next();
+                if k == j { *r.unwrap() = x; }
+            }
+            k += 1;
+        }
+    }
+    assert!(FlexVec::<T, L>::validate(b).is_ok());
+    let c2 = walk::<M>(b, len, &f);
+    assert!(c2.ok && c2.cnt == c.cnt, "C12: item edit changed the item count");
+    let p = c.slot[j] + f.slot();
+    assert!(rd_item(b, p, &f) == x.v(), "C12: edited item does not hold the new value");
+    // C14 / C12 "editing one item never changes another": every byte outside the edited payload is unchanged
+    assert!(same_bytes::<N>(&pre, b, 0, p), "C14: bytes before the edited payload modified");
+    assert!(same_bytes::<N>(&pre, b, p + f.item_min(), len), "C14: bytes after the edited payload modified");
+    kani::cover!(j == 0 && c.cnt > 1);
+    kani::cover!(j + 1 == c.cnt && c.cnt > 1);
+}
+
+// ---- FlexVec<u8, u8>: BOUNDED buffer <= 7 bytes (<= 3 items)
+#[kani::proof]
+#[kani::unwind(9)]
+fn c12_flex_u8_u8_view() {
+    chk_view::<u8, u8, 7, 3>(F_U8_U8);
+}
+#[kani::proof]
+#[kani::unwind(9)]
+fn c05_flex_u8_u8_size() {
+    chk_size::<u8, u8, 7, 3>(F_U8_U8);
+}
+#[kani::proof]
+#[kani::unwind(9)]
+fn c12_flex_u8_u8_pop() {
+    chk_pop::<u8, u8, 7, 3>(F_U8_U8);
+}
+#[kani::proof]
+#[kani::unwind(9)]
+fn c12_flex_u8_u8_truncate() {
+    chk_truncate::<u8, u8, 7, 3>(F_U8_U8);
+}
+#[kani::proof]
+#[kani::unwind(9)]
+fn c12_flex_u8_u8_clear() {
+    chk_clear::<u8, u8, 7, 3>(F_U8_U8);
+}
+#[kani::proof]
+#[kani::unwind(9)]
+fn c12_flex_u8_u8_push() {
+    chk_push::<u8, u8, 7, 3>(F_U8_U8, false);
+}
+#[kani::proof]
+#[kani::unwind(9)]
+fn c12_flex_u8_u8_push_default() {
+    chk_push::<u8, u8, 7, 3>(F_U8_U8, true);
+}
+#[kani::proof]
+#[kani::unwind(9)]
+fn c12_flex_u8_u8_edit() {
+    chk_edit::<u8, u8, 7, 3>(F_U8_U8);
+}
